@@ -75,6 +75,25 @@ class FrozenOracle(Oracle):
         self.cached = None  # snapshot still valid (nothing ran since it was taken)
         self.negative = set()  # containers currently reported negative
         self.kinds = self.val.kinds
+        self.subs = []  # wallet subtractions of the running operation: (token, balance before, balance after)
+        self._observe_wallet(sim)
+
+    def _observe_wallet(self, sim):
+        """Pure observation of Broker.subtract_from_balance (the only place the wallet rounds): per-instance wrapper that records
+        the balance right before and right after each call, then behaves exactly like the original."""
+        broker, subs = sim.broker, self.subs
+        orig = broker.subtract_from_balance
+
+        def observed(token, amount):
+            before = broker.assets[token].balance if token in broker.assets else None
+            try:
+                return orig(token, amount)
+            finally:
+                after = broker.assets[token].balance if token in broker.assets else None
+                if before is not None and after is not None:
+                    subs.append((token.name, before, after))
+
+        broker.subtract_from_balance = observed
 
     def phase(self, sim, bar, phase, pos):
         self.cached = None  # the loop may have refreshed / updated markets
@@ -88,6 +107,13 @@ class FrozenOracle(Oracle):
             sim._gmx["call"] = None
         self.pre = self.cached if self.cached is not None else self.val.snapshot(sim)
         self.cached = None
+        del self.subs[:]
+        # a quantity that went negative while no operation ran (the bar loop's own update, as a late consequence of an earlier
+        # operation) is not attributed to the next operation
+        for cid, (qty, _v) in self.pre.c.items():
+            if qty < 0 and cid not in self.negative and _checked_nonneg(cid):
+                self.negative.add(cid)
+                sim.count("probe:negative_outside_operation")
 
     def after_op(self, sim, op, outcome):
         if outcome["status"] == "skipped":
@@ -98,6 +124,10 @@ class FrozenOracle(Oracle):
         if s1.row != s0.row:
             raise HarnessError("bar changed inside an operation")
         self.cached = s1
+        if self.val.sq_pool and any(e.get("transferred") and e.get("counted") for k, e in s1.extra.items() if k[0] == "uni"):
+            sim.count("probe:lp_lent_to_vault")
+            if self.val.reported_rebase(sim, s1) != 0:
+                sim.count("probe:reported_rebase_nonzero")
         self._check(sim, op, outcome, s0, s1)
 
     # ------------------------------------------------------------------------------------------------ the checks
@@ -123,12 +153,13 @@ class FrozenOracle(Oracle):
         dust = Fraction(0)
         snapped = False
         for t in set(s0.wallet) | set(s1.wallet):
-            b0, b1 = s0.wallet.get(t, Fraction(0)), s1.wallet.get(t, Fraction(0))
-            if b0 != b1:
+            if s0.wallet.get(t, Fraction(0)) != s1.wallet.get(t, Fraction(0)):
                 touched_tokens.add(t)
-                if b1 == 0 and b0 > 0:  # taken to exactly zero: Asset.sub may have rounded
-                    dust += DUST_REL * b0 * val.price(t, row)
-                    snapped = True
+        for t, before, after in self.subs:
+            touched_tokens.add(t)
+            if after == 0 and before > 0:  # a subtraction that left exactly zero: Asset.sub may have rounded (|rest| < 1e-5 x balance)
+                dust += DUST_REL * FV.F(before) * val.price(t, row)
+                snapped = True
         for cid in changed:
             if cid[0] == "aave":
                 touched_tokens.add(cid[2])
@@ -136,8 +167,8 @@ class FrozenOracle(Oracle):
         tol = dust + REL_EPS * gross + wei
         if "gmx1" in fam_touched:
             tol += GLP_PRICE_REL * sum((max(abs(s0.c.get(c, (0, 0))[1]), abs(s1.c.get(c, (0, 0))[1])) for c in changed if c[0] == "gmx1"), Fraction(0))
-        if name.startswith("uni.") or name in ("sq.buy_squeeth", "sq.sell_squeeth"):
-            tol += POOL_PRICE_REL * gross
+        if name.startswith("uni.") or name in ("sq.buy_squeeth", "sq.sell_squeeth") or val._prices is None:
+            tol += POOL_PRICE_REL * gross  # (a world without a price frame takes its account prices from the pool's column)
         allowance = Fraction(0)
         flow = Fraction(0)
         call = None
@@ -190,6 +221,8 @@ class FrozenOracle(Oracle):
             sim.count("probe:conservation_checked")
         # (d) nothing negative
         for cid, (qty, _v) in s1.c.items():
+            if not _checked_nonneg(cid):
+                continue
             floor = Fraction(0)
             if cid[0] == "gmx2":
                 floor = -V2_REL * max(abs(s0.c.get(cid, (Fraction(0), 0))[0]), Fraction(1))
@@ -277,12 +310,13 @@ class FrozenOracle(Oracle):
         def over(paid, held, what, **kw):
             sim.violate("c03.over_redemption", f"{_short(name)}:{st}:{what}", paid=_f(paid), held_before=_f(held), **kw, **detail)
 
-        slack = lambda x: REL_EPS * abs(x) + WEI_UNITS * WEI
+        slack = lambda x, virt=0: REL_EPS * abs(x) + WEI_UNITS * WEI + POOL_PRICE_REL * virt
         fam = name.split(".")[0]
         if fam == "uni" and name in ("uni.remove", "uni.collect", "uni.remove_all"):
             m = op["m"]
             u = val.uni[m]
             held = [Fraction(0), Fraction(0)]
+            virt = [Fraction(0), Fraction(0)]  # L*2^96/s and L*s/2^96: the scale on which the pool price's 2^-53 moves the amounts
             moved = False
             for key, e0 in s0.extra.items():
                 if key[0] != "uni" or key[1] != m:
@@ -297,14 +331,16 @@ class FrozenOracle(Oracle):
                 rel = e0["L"] != (e1["L"] if e1 else 0)
                 held[0] += e0["p0"] + (max(e0["a0"], Fraction(0)) if rel else 0)
                 held[1] += e0["p1"] + (max(e0["a1"], Fraction(0)) if rel else 0)
+                virt[0] += e0["v0"]
+                virt[1] += e0["v1"]
                 if e1 is not None:  # pending amounts may only grow by what the removed liquidity was worth
                     for i, pk, ak in ((0, "p0", "a0"), (1, "p1", "a1")):
                         grow = e1[pk] - e0[pk]
-                        if grow > max(e0[ak], Fraction(0)) + slack(e0[ak]):
+                        if grow > max(e0[ak], Fraction(0)) + slack(e0[ak], e0["v%d" % i]):
                             over(grow, e0[ak], f"pending{i}_grew_beyond_liquidity_amount", position=[key[2], key[3]])
             for i, tok in ((0, u["t0"]), (1, u["t1"])):
                 g = gain(tok)
-                if g > held[i] + slack(held[i]):
+                if g > held[i] + slack(held[i], virt[i]):
                     over(g, held[i], f"token{i}_paid_beyond_pending_plus_liquidity" if moved else f"token{i}_paid_without_position_change")
             if moved:
                 sim.count("probe:uni_payout_checked")
@@ -394,6 +430,12 @@ class FrozenOracle(Oracle):
                 raise HarnessError(f"harness code raised inside the bar loop: {name} at {last}: {sim.crash}")
             # a crash of the bar loop itself (market update, liquidation ...) is not a statement of C03
             sim.count(f"probe:run_crashed_in_{last.split(':')[0]}")
+
+
+def _checked_nonneg(cid):
+    """the property lists wallet balance, liquidity, supply, debt, vault amount, option amount, pool-share amount (+ DESIGN: pending
+    amounts, Deribit cash); the GLP reward accrual is not among them"""
+    return not (cid[0] == "gmx1" and cid[2] == "reward")
 
 
 def _container_kind(cid):
